@@ -141,6 +141,42 @@ def _operands(ins):
     return [x.strip() for x in body.split(",")[:2]]
 
 
+def sign_factor(ff, s):
+    """(X, cond, neg_when_true, k) when s == select(cond, a, b) with constants a = -b != 0 that is negative exactly when X < 0 (cond compares X with 0):
+    the branch-free idiom  sign = (w < 0 ? -1 : 1);  q = sign * q"""
+    ins = ff.f.defs.get(s)
+    if ins is None or ins.op != "select":
+        return None
+    parts = ir.split_top(ins.text[len("select"):])
+    cond = parts[0].split()[-1]
+    a, b = ir.parse_const(parts[1].split()[-1]), ir.parse_const(parts[2].split()[-1])
+    if a is None or b is None or a != -b or a == 0:
+        return None
+    ci = ff.f.defs.get(cond)
+    if ci is None or ci.op != "fcmp":
+        return None
+    m = re.match(r"^fcmp (?:\w+ )*?(olt|ult|ogt|ugt|ole|ule|oge|uge) (?:double|float) (\S+?), (\S+)$", ci.text.strip())
+    if not m:
+        return None
+    pred, lhs, rhs = m.group(1), m.group(2), m.group(3)
+    zero_r, zero_l = ir.parse_const(rhs) == 0, ir.parse_const(lhs) == 0
+    if zero_r and pred in ("olt", "ult", "ole", "ule"):
+        x, neg_when_true = lhs, True
+    elif zero_r and pred in ("ogt", "ugt", "oge", "uge"):
+        x, neg_when_true = lhs, False
+    elif zero_l and pred in ("ogt", "ugt", "oge", "uge"):
+        x, neg_when_true = rhs, True
+    elif zero_l and pred in ("olt", "ult", "ole", "ule"):
+        x, neg_when_true = rhs, False
+    else:
+        return None
+    # value of the factor when cond is true is a: it must be negative exactly in the "X negative" case
+    neg_case_value = a if neg_when_true else b
+    if not neg_case_value < 0:
+        return None
+    return (x, cond, neg_when_true, abs(a))
+
+
 def nonneg(ff, v, in_wcells, ss, outp, depth=0):
     """(ok, kind, flip) : v >= 0 provided every input q_w cell is >= 0 (inductive invariant)."""
     if depth > 8:
@@ -158,6 +194,13 @@ def nonneg(ff, v, in_wcells, ss, outp, depth=0):
     ins = ff.f.defs.get(v)
     if ins is None:
         return (False, sh[1], None)
+    if ins.op == "fmul":
+        ops = _operands(ins)
+        if len(ops) == 2:
+            for a, b in ((ops[0], ops[1]), (ops[1], ops[0])):
+                sf = sign_factor(ff, a)
+                if sf is not None and sf[0] == b:
+                    return (True, "abs", ("factor", a, sf))          # sign(X) * X = |X|
     if ins.op in ("fdiv", "fmul"):
         ops = _operands(ins)
         if len(ops) == 2:
@@ -187,6 +230,17 @@ def flipped_with(ff, v, cond, neg_when_true):
         return c == 0
     ins = ff.f.defs.get(v)
     if ins is None:
+        return False
+    if cond == "factor":
+        # q_w = s * w with the sign factor s: the vector cells must be multiplied by the same factor
+        s_name, sf = neg_when_true
+        if ins.op == "fmul":
+            for a in _operands(ins):
+                if a == s_name:
+                    return True
+                sf2 = sign_factor(ff, a)
+                if sf2 is not None and sf2[:3] == sf[:3]:
+                    return True
         return False
     if ins.op == "select":
         parts = ir.split_top(ins.text[len("select"):])
@@ -325,7 +379,8 @@ def check_r1(rep, tier, only_conversions=False):
                     # the three vector cells must flip under the same condition
                     for k in (wc - 3, wc - 2, wc - 1):
                         vs = [x for x in ws if x["prov"].root == ("param", outp) and x["prov"].off == k * ss and x["kind"] == "store"]
-                        if not vs or not all(flipped_with(ff, x["value"], flip[0], flip[1]) for x in vs):
+                        fl = ("factor", (flip[1], flip[2])) if flip[0] == "factor" else (flip[0], flip[1])
+                        if not vs or not all(flipped_with(ff, x["value"], fl[0], fl[1]) for x in vs):
                             bad = (wc, "q_w is made non-negative but quaternion cell %d is not negated under the same condition "
                                    "(the element would change, not just its representative)" % k)
         if bad == "skip":
@@ -475,71 +530,81 @@ def check_r2(rep, idx):
                                                   "coefficient %d of the rotation part is written directly: %s" % (int(ixs[0][1]), A.show(e)[:60]), f, l))
 
 
-def check_r3(rep, objs):
-    rep.rule("R3", "normalising constructors divide by the norm of their inputs / call normalized()", minimum=3)
-    idx = A.index(objs)
-    found = 0
-    for d in idx:
-        if d.kind != "CXXConstructorDecl" or not d.pattern or not d.file or not d.file.startswith(fe.INCLUDE):
+def check_r3(rep, objs=None):
+    """R3: the normalising constructors SO2(qz, qw), SO2(std::complex), SO3(quaternion) store a unit vector proportional to their input.
+    Decided on the optimized IR of witnesses in the polynomial domain with sqrt as an algebraic symbol (s = sqrt(p) is a fresh variable with the
+    rewrite rule s^2 -> p): sum of squares of the stored coefficients == 1, and stored_i * in_j == stored_j * in_i (same ray) for the documented pairing of
+    inputs and coefficients.  Independent of how the constructor is written (delegation, normalized(), explicit division)."""
+    import poly
+    rep.rule("R3", "normalising constructors store a unit vector on the ray of their input (polynomial domain with sqrt as an algebraic symbol)", minimum=3)
+    W = irw.IRW("c15_r3", groups.PRELUDE + "#include <complex>\n#include <Eigen/Geometry>\n", chunk=3)
+    sig = "const double* a, double* out"
+    W.add("r3_so2_pair", sig, "  smooth::Map<smooth::SO2d> o(out);\n  o = smooth::SO2d(a[0], a[1]);\n", what="SO2(qz, qw)", pairing=[0, 1])
+    W.add("r3_so2_complex", sig, "  smooth::Map<smooth::SO2d> o(out);\n  o = smooth::SO2d(std::complex<double>(a[0], a[1]));\n", what="SO2(std::complex(re, im))", pairing=[1, 0])
+    W.add("r3_so3_quat", sig, "  Eigen::Map<const Eigen::Quaterniond> q(a); smooth::Map<smooth::SO3d> o(out);\n  o = smooth::SO3d(q);\n", what="SO3(quaternion)", pairing=[0, 1, 2, 3])
+    facts = W.build()
+
+    class SqrtEval(poly.PathEval):
+        PURE_CALLS = ("sqrt", "llvm.sqrt", "sqrtf", "hypot")
+
+        def dom_call(self, name, args):
+            base = name.split(".f64")[0].split(".f32")[0]
+            if base in ("sqrt", "llvm.sqrt", "sqrtf") and len(args) == 1:
+                a = args[0].normal(self.cons)
+                if not (poly.p_is_const(a.d) and a.d):
+                    raise poly.Unsupported("sqrt of a rational function")
+                c = a.d[()]
+                pn = {m_: v / c for m_, v in a.n.items()}
+                key = "sqrt{%s}" % poly.p_show(pn, 12)
+                self.cons.rules[key] = pn
+                return poly.RF(poly.p_var(key))
+            if base == "hypot" and len(args) == 2:
+                return self.dom_call("sqrt", [args[0] * args[0] + args[1] * args[1]])
+            return super().dom_call(name, args)
+    for fname, (ff, meta, mod) in sorted(facts.items()):
+        n = len(meta["pairing"])
+        cons = poly.Constraints()
+        try:
+            pe_ = SqrtEval(ff, lambda p_, off, ty: ("in%d" % (off // 8)) if p_ == 0 else None, cons)
+            orig = pe_._run_path
+
+            def run_path(dec, pe_=pe_, orig=orig):
+                pe_._dec_proxy = dec
+                return orig(dec)
+            pe_._run_path = run_path
+            paths = pe_.run()
+        except (poly.Unsupported, ir.Unresolved) as ex:
+            rep.broke("R3: %s cannot be abstracted into the polynomial domain: %s" % (meta["what"], ex))
             continue
-        ps = A.params(d.node)
-        ptys = [re.sub(r"\s", "", p.get("type", {}).get("qualType", "")) for p in ps]
-        cls = d.qname.split("::")[0]
-        if cls == "SO2" and (ptys == ["constScalar&", "constScalar&"] or (len(ptys) == 1 and "complex" in ptys[0])):
-            b = A.body(d.node)
-            locs = {}
-            assigns = []
-            for x in A.walk(b):
-                if x.get("kind") == "VarDecl" and A.kids(x):
-                    locs[x.get("name")] = A.to_expr(A.kids(x)[-1])
-                if x.get("kind") in ("BinaryOperator", "CXXOperatorCallExpr"):
-                    e = A.to_expr(x)
-                    if e[0] == "op" and e[1] == "=" and "m_coeffs" in A.show(e[2]):
-                        assigns.append(e)
-            ok = len(assigns) == 2
-            why = ""
-            dens = set()
-            nums = []
-            for e in assigns:
-                rhs = e[3]
-                if rhs[0] == "op" and rhs[1] == "/" and rhs[3][0] == "ref" and rhs[3][1] in locs:
-                    dens.add(rhs[3][1])
-                    nums.append(A.show(rhs[2]))
-                else:
-                    ok, why = False, "coefficient assigned `%s` without division by the norm" % A.show(rhs)[:50]
-            if ok and len(dens) == 1:
-                n = locs[next(iter(dens))]
-                # n = sqrt(a*a + b*b) over the two numerators
-                okn = n[0] == "call" and str(n[1]).split("::")[-1] == "sqrt" and n[2][0][0] == "op" and n[2][0][1] == "+"
-                if okn:
-                    terms = [n[2][0][2], n[2][0][3]]
-                    sq = []
-                    for t in terms:
-                        if t[0] == "op" and t[1] == "*" and A.show(t[2]) == A.show(t[3]):
-                            sq.append(A.show(t[2]))
-                        else:
-                            okn = False
-                    okn = okn and sorted(sq) == sorted(nums)
-                if not okn:
-                    ok, why = False, "divisor `%s` is not the Euclidean norm of the two stored components %s" % (A.show(n)[:60], nums)
-            elif ok:
-                ok, why = False, "components divided by different quantities"
-            found += 1
-            rep.instance("R3", d.qname, "(%s)" % ",".join(ptys)[:40], ok=ok, sample={"file": fe.rel(d.file), "line": d.line})
-            if not ok:
-                rep.violation(Finding("R3", d.qname, "normalise", "SO2 constructor does not normalise its input: " + why, d.file, d.line))
-        if cls == "SO3" and len(ptys) == 1 and "QuaternionBase" in ptys[0]:
-            inits = [c for c in A.kids(d.node) if c.get("kind") == "CXXCtorInitializer" and c.get("anyInit", {}).get("name") == "m_coeffs"]
-            t = "".join(A.ntext(k) for k in A.kids(inits[0])) if inits else ""
-            ie = A.to_expr(A.kids(inits[0])[0]) if inits and A.kids(inits[0]) else ("num", 0)
-            ok = (ie[0] == "mcall" and ie[2] == "coeffs" and ie[1][0] == "mcall" and ie[1][2] == "normalized" and ie[1][1][0] == "ref"
-                  and ie[1][1][1] == ps[0].get("name"))
-            found += 1
-            rep.instance("R3", d.qname, "(quaternion)", ok=ok, sample={"file": fe.rel(d.file), "line": d.line, "init": t})
-            if not ok:
-                rep.violation(Finding("R3", d.qname, "normalise", "SO3(quaternion) does not store quat.normalized().coeffs(): `%s`" % t, d.file, d.line))
-    if found < 3:
-        rep.broke("R3: only %d normalising constructors found (SO2(qz,qw), SO2(complex), SO3(quaternion) confirmed by hand)" % found)
+        bad = None
+        for path in paths:
+            if poly.path_only_at_origin(path, pe_):
+                continue          # e.g. Eigen's normalized() returns its argument unchanged when the squared norm is not positive: the zero input only
+            st = path["stores"]
+            outs = [st.get((1, 8 * i)) for i in range(n)]
+            if any(o is None for o in outs):
+                bad = "coefficient %d is not written" % next(i for i, o in enumerate(outs) if o is None)
+                break
+            ssq = poly.RF.const(0)
+            for o in outs:
+                ssq = ssq + o * o
+            if not poly.rf_equal(ssq, poly.RF.const(1), cons):
+                nn = ssq.normal(cons)
+                bad = "the stored coefficients have squared norm %s / (%s), not 1" % (poly.p_show(nn.n, 8), poly.p_show(nn.d, 4))
+                break
+            ins = [poly.RF(poly.p_var("in%d" % j)) for j in meta["pairing"]]
+            for i in range(n):
+                for j in range(i + 1, n):
+                    if not poly.rf_equal(outs[i] * ins[j], outs[j] * ins[i], cons):
+                        bad = "stored coefficients %d, %d are not proportional to the inputs paired with them" % (i, j)
+                        break
+                if bad:
+                    break
+            if bad:
+                break
+        rep.instance("R3", meta["what"], "unit ray", ok=bad is None, sample={"witness": fname, "paths": len(paths)})
+        if bad:
+            rep.violation(Finding("R3", meta["what"], "normalise", "%s does not normalise its input: %s" % (meta["what"], bad), None, None, detail={"witness": fname}))
 
 
 def check_r4(rep):
